@@ -5,9 +5,13 @@
    Evaler.Eval of a top-level chunk (REPL granularity): the interpreter state st is carried from
    chunk to chunk of one program.
 
-   State     st  == [store: Seq(Value), nfn: Nat, genv: Name -> Loc]
+   State     st  == [store: Seq(Value), nfn: Nat, depth: Nat, genv: Name -> Loc, inp, inok, rd]
                     store: locations; a variable is a location, so closures capture variables
-                    ("Closure semantics"); genv: the global namespace.
+                    ("Closure semantics"); genv: the global namespace;
+                    inp: the values on the value input of the running command (<<>> at the top
+                    level), rd: the input has been read (to its end: every reader drains it),
+                    inok: FALSE inside callbacks of each / keep-if / order, which share their
+                    caller's input (reading there is OutOfModel).
    Env       env == function Name -> Loc  (the lexical scope chain flattened; `var` rebinds a name
                     to a fresh location: "the existing variable is shadowed")
    Result    r   == [st, env, vs, out, exc]
@@ -37,7 +41,11 @@
 EXTENDS ElvCoreBuiltins
 
 Features == <<"values", "put", "var", "set", "list", "map", "indexing", "arith", "compare",
-              "compound", "braced", "output-capture">>
+              "compound", "braced", "output-capture", "element-assign",
+              "if", "while", "for", "fn", "lambda", "closure", "return",
+              "fail", "try", "break", "continue", "and", "or", "coalesce", "exception-capture",
+              "rest-args", "options", "pipelines", "range", "each", "all", "take", "drop", "count",
+              "one", "compact", "order", "keep-if">>
 
 \* ---------------------------------------------------------------- results
 Res(st, env, vs, out, exc) == [st |-> st, env |-> env, vs |-> vs, out |-> out, exc |-> exc]
@@ -52,7 +60,10 @@ After(ra, rb)        == [rb EXCEPT !.out = ra.out \o rb.out]
 AfterV(ra, rb)       == [rb EXCEPT !.out = ra.out \o rb.out, !.vs = ra.vs \o rb.vs]
 
 \* ---------------------------------------------------------------- store and environments
-InitState == [store |-> <<>>, nfn |-> 1, genv |-> [x \in {} |-> 0]]
+InitState == [store |-> <<>>, nfn |-> 1, depth |-> 0, genv |-> [x \in {} |-> 0],
+              inp |-> <<>>, inok |-> TRUE, rd |-> FALSE]
+MaxIter  == 200      \* iterations of one `while` inside the model (beyond: OutOfModel)
+MaxDepth == 40       \* nesting of function calls inside the model (beyond: OutOfModel)
 Alloc(st, v)      == [st EXCEPT !.store = Append(@, v)]
 NewLoc(st)        == Len(st.store) + 1
 SetLoc(st, l, v)  == [st EXCEPT !.store[l] = v]
@@ -79,7 +90,17 @@ RECURSIVE EvalExprs(_, _, _, _)
 RECURSIVE EvalCat(_, _, _, _, _)
 RECURSIVE EvalPairs(_, _, _, _, _)
 RECURSIVE ResolveLVs(_, _, _, _, _)
-RECURSIVE EvalSingles(_, _, _, _, _)
+RECURSIVE EvalSingles(_, _, _, _, _, _)
+RECURSIVE CallFn(_, _, _, _, _)
+RECURSIVE ExecIf(_, _, _, _)
+RECURSIVE ExecWhile(_, _, _, _, _)
+RECURSIVE ExecForLoop(_, _, _, _, _, _, _)
+RECURSIVE EvalLogic(_, _, _, _, _, _)
+RECURSIVE EvalOpts(_, _, _, _, _)
+
+\* A block (body of if/while/for/try, of a function) runs in a new lexical scope: the names it
+\* declares are gone afterwards, the variables (locations) it changed are not.
+ExecBlock(st, env, chunk) == LET r == ExecChunk(st, env, chunk.ps, 1) IN [r EXCEPT !.env = env]
 
 \* ---- expressions ("Expressions")
 Explode(st, env, v) ==
@@ -93,7 +114,18 @@ EvalVar(st, env, e) ==
     IF e.explode THEN Explode(st, env, v) ELSE Vals(st, env, <<v>>)
   ELSE LET b == BuiltinVar(e.n) IN
        IF b # <<>> THEN (IF e.explode THEN Explode(st, env, b[1]) ELSE Vals(st, env, b))
+       ELSE IF \E f \in BuiltinFnNames : e.n = f \o "~" THEN
+              LET f == CHOOSE f \in BuiltinFnNames : e.n = f \o "~" IN
+              IF e.explode THEN Throw(st, env, CType) ELSE Vals(st, env, <<VBuiltin(f)>>)
        ELSE Throw(st, env, COOM)
+
+\* "Function": a lambda evaluates to a new closure over the current environment.
+\* closure == [k:"fn", id, params, rest, optn: Seq(name), optd: Seq(Value), body: chunk, env, wrap]
+\* wrap: defined with `fn` (captures `return`).
+Closure(id, e, optd, env, wrap) ==
+  [k |-> "fn", id |-> id, params |-> e.params, rest |-> e.rest,
+   optn |-> [i \in 1..Len(e.opts) |-> e.opts[i][1]], optd |-> optd,
+   body |-> e.body, env |-> env, wrap |-> wrap]
 
 \* Outer product of two value sequences under concatenation ("Compounding"): numbers are
 \* converted to strings, other types cannot be concatenated.
@@ -132,6 +164,15 @@ EvalExpr(st, env, e) ==
                         LET r == ExecChunk(st, env, e.c.ps, 1) IN
                         IF Failed(r) THEN [r EXCEPT !.out = <<>>]
                         ELSE [r EXCEPT !.vs = r.out, !.out = <<>>]
+    [] e.t = "xcap"  -> \* "Exception capture": evaluates to the exception or $ok; output is not affected
+                        LET r == ExecChunk(st, env, e.c.ps, 1) IN
+                        IF Skip(r.exc) THEN r
+                        ELSE [r EXCEPT !.vs = <<VExc(r.exc)>>, !.exc = COk]
+    [] e.t = "lam"   -> \* option defaults are evaluated now; each must be exactly one value
+                        LET rd == EvalSingles(st, env, [i \in 1..Len(e.opts) |-> e.opts[i][2]], 1, <<>>, CArity) IN
+                        IF Failed(rd) THEN rd
+                        ELSE [rd EXCEPT !.st.nfn = @ + 1,
+                                        !.vs = <<Closure(rd.st.nfn, e, rd.vs, rd.env, FALSE)>>]
     [] OTHER -> Throw(st, env, COOM)
 
 EvalExprs(st, env, es, i) ==
@@ -162,34 +203,39 @@ EvalPairs(st, env, pairs, i, acc) ==
             ELSE IF \E q \in 1..Len(rk.vs) : ~KeyOK(rk.vs[q]) THEN After(rk, [rv EXCEPT !.vs = <<>>, !.exc = COOM])
             ELSE After(rk, After(rv, EvalPairs(rv.st, rv.env, pairs, i + 1, AssocAll(acc, rk.vs, rv.vs, 1))))
 
-\* ---- assignment ("set", "var")
-\* An lvalue is resolved, before the right-hand side is evaluated, to
-\*   [loc, assocers: Seq(Value), indices: Seq(Value)]
-\* (element assignment `a[i][j] = v` is `a = (assoc $a i (assoc $a[i] j v))`, the containers being
-\* read when the lvalue is resolved).
-\* EvalSingles: each index expression must evaluate to exactly one value.
-EvalSingles(st, env, es, i, acc) ==
+\* Each expression must evaluate to exactly one value, else the cause c1.
+EvalSingles(st, env, es, i, acc, c1) ==
   IF i > Len(es) THEN Vals(st, env, acc)
   ELSE LET r == EvalExpr(st, env, es[i]) IN
        IF Failed(r) THEN [r EXCEPT !.vs = <<>>]
-       ELSE IF Len(r.vs) # 1 THEN [r EXCEPT !.vs = <<>>, !.exc = COOM]   \* "multi indexing not implemented"
-       ELSE After(r, EvalSingles(r.st, r.env, es, i + 1, Append(acc, r.vs[1])))
+       ELSE IF Len(r.vs) # 1 THEN [r EXCEPT !.vs = <<>>, !.exc = c1]
+       ELSE After(r, EvalSingles(r.st, r.env, es, i + 1, Append(acc, r.vs[1]), c1))
 
+\* ---- variables and assignment ("var", "set")
+RECURSIVE Declare(_, _, _, _, _)
+\* names[i..] bound, in order, to fresh variables holding vals[i..]
+Declare(st, env, names, vals, i) ==
+  IF i > Len(names) THEN [st |-> st, env |-> env]
+  ELSE Declare(Alloc(st, vals[i]), Bind(env, names[i], NewLoc(st)), names, vals, i + 1)
+
+\* An lvalue is resolved, before the right-hand side is evaluated, to
+\*   [loc, as: containers along the index path, idx: index values]
+\* (element assignment `a[i][j] = v` is `a = (assoc $a i (assoc $a[i] j v))`, the containers being
+\* read when the lvalue is resolved; with several element lvalues of one variable each uses the
+\* value read then -- the documented implementation behaviour, not forbidden by the reference).
 RECURSIVE Assocers(_, _, _, _)
-\* containers along the index path: <<v, v[i1], v[i1][i2], ...>> (all but the last index)
 Assocers(v, idx, i, acc) ==
   IF i >= Len(idx) THEN [ok |-> TRUE, as |-> Append(acc, v)]
   ELSE LET r == Index(v, idx[i]) IN
        IF ~r.ok THEN [ok |-> FALSE, c |-> r.c] ELSE Assocers(r.v, idx, i + 1, Append(acc, v))
 
-\* mode "set": names must be bound; mode "new": fresh locations are allocated when assigning
 ResolveLVs(st, env, lvs, i, acc) ==
   IF i > Len(lvs) THEN Vals(st, env, acc)
   ELSE LET lv == lvs[i] IN
        IF ~Bound(env, lv.n) THEN Throw(st, env, COOM)
        ELSE IF lv.idx = <<>> THEN
               ResolveLVs(st, env, lvs, i + 1, Append(acc, [loc |-> env[lv.n], as |-> <<>>, idx |-> <<>>]))
-       ELSE LET ri == EvalSingles(st, env, lv.idx, 1, <<>>) IN
+       ELSE LET ri == EvalSingles(st, env, lv.idx, 1, <<>>, COOM) IN     \* "multi indexing not implemented"
             IF Failed(ri) THEN ri
             ELSE LET a == Assocers(ri.st.store[env[lv.n]], ri.vs, 1, <<>>) IN
                  IF ~a.ok THEN After(ri, Throw(ri.st, ri.env, a.c))
@@ -197,7 +243,6 @@ ResolveLVs(st, env, lvs, i, acc) ==
                                            Append(acc, [loc |-> env[lv.n], as |-> a.as, idx |-> ri.vs])))
 
 RECURSIVE AssocPath(_, _, _, _)
-\* new whole value: assoc from the inside out
 AssocPath(as, idx, i, v) ==
   IF i = 0 THEN Good(v)
   ELSE LET r == Assoc(as[i], idx[i], v) IN IF ~r.ok THEN r ELSE AssocPath(as, idx, i - 1, r.v)
@@ -210,53 +255,264 @@ StoreAll(st, refs, vals, i) ==
        IF ~nv.ok THEN [ok |-> FALSE, st |-> st, c |-> nv.c]
        ELSE StoreAll(SetLoc(st, refs[i].loc, nv.v), refs, vals, i + 1)
 
-\* Distribution of n values over m lvalues with an optional rest lvalue at (1-based) position rp
-\* (0 = none): -> [ok, vals] ("the number of values and lvalues must be compatible")
+\* Distribution of n values over m lvalues / parameters with an optional rest position rp
+\* (1-based, 0 = none): -> [ok, vals]
 Distribute(vals, m, rp) ==
   IF rp = 0 THEN (IF Len(vals) = m THEN [ok |-> TRUE, vals |-> vals] ELSE [ok |-> FALSE])
   ELSE IF Len(vals) < m - 1 THEN [ok |-> FALSE]
-  ELSE LET extra == Len(vals) - m IN     \* the rest lvalue takes extra + 1 values
+  ELSE LET extra == Len(vals) - m IN     \* the rest position takes extra + 1 values
        [ok |-> TRUE,
         vals |-> [j \in 1..m |-> IF j < rp THEN vals[j]
                                  ELSE IF j = rp THEN VList(SubSeq(vals, rp, rp + extra))
                                  ELSE vals[j + extra]]]
 
+\* The variable of `for` / `catch`: the variable of that name in scope, else a new variable of
+\* the current scope.  -> [st, env, loc]
+ScopeVar(st, env, n) ==
+  IF Bound(env, n) THEN [st |-> st, env |-> env, loc |-> env[n]]
+  ELSE [st |-> Alloc(st, VNil), env |-> Bind(env, n, NewLoc(st)), loc |-> NewLoc(st)]
+
+\* ---- functions ("Function", "fn", "Exception and Flow Commands")
+\* find option name in the evaluated options <<name, value>>; the last occurrence wins
+RECURSIVE OptFind(_, _, _)
+OptFind(opts, n, i) == IF i = 0 THEN 0 ELSE IF opts[i][1] = n THEN i ELSE OptFind(opts, n, i - 1)
+SeqHas(s, x) == \E i \in 1..Len(s) : s[i] = x
+
+RECURSIVE CallBuiltin(_, _, _, _, _)
+
+\* CallFn: call the function value f with evaluated arguments and options <<name, value>>.
+\* env is the caller's environment (returned unchanged).
+CallFn(st, env, f, args, opts) ==
+  IF f.id = 0 THEN CallBuiltin(st, env, f.b, args, opts)
+  ELSE IF st.depth >= MaxDepth THEN Throw(st, env, COOM)
+  ELSE
+    LET d == Distribute(args, Len(f.params), f.rest) IN
+    IF ~d.ok THEN Throw(st, env, CArity)
+    ELSE IF \E i \in 1..Len(opts) : ~SeqHas(f.optn, opts[i][1]) THEN Throw(st, env, CBadOpt)
+    ELSE LET optv == [i \in 1..Len(f.optn) |->
+                        LET j == OptFind(opts, f.optn[i], Len(opts)) IN
+                        IF j = 0 THEN f.optd[i] ELSE opts[j][2]]
+             sc == Declare([st EXCEPT !.depth = @ + 1], f.env, f.params \o f.optn, d.vals \o optv, 1)
+             r == ExecChunk(sc.st, sc.env, f.body.ps, 1)
+             exc == IF f.wrap /\ r.exc.c = "flow" /\ r.exc.n = "return" THEN COk ELSE r.exc
+         IN [r EXCEPT !.env = env, !.st.depth = st.depth, !.exc = exc, !.vs = <<>>]
+
 \* ---- commands ("Ordinary command")
+\* The value inputs of a command taking `inputs?`: the extra argument if given (an iterable value),
+\* else the value input, which is read to its end.  -> [ok, vs, st] | [ok |-> FALSE, c]
+Inputs(st, args, nfixed) ==
+  IF Len(args) = nfixed + 1 THEN
+    LET v == args[nfixed + 1] IN
+    IF ~Iterable(v) THEN [ok |-> FALSE, c |-> CType]
+    ELSE IF v.k = "str" /\ ~Ascii(v.s) THEN [ok |-> FALSE, c |-> COOM]
+    ELSE [ok |-> TRUE, vs |-> Elements(v), st |-> st]
+  ELSE IF ~st.inok THEN [ok |-> FALSE, c |-> COOM]
+  ELSE [ok |-> TRUE, vs |-> st.inp, st |-> [st EXCEPT !.inp = <<>>, !.rd = TRUE]]
+
+\* an exact integer argument (take, drop): [ok, n] | [ok |-> FALSE, c]
+IntArg(v) == LET c == AsNum(v) IN
+             IF c.cls = "int" THEN [ok |-> TRUE, n |-> c.n]
+             ELSE IF c.cls = "unk" THEN [ok |-> FALSE, c |-> COOM] ELSE [ok |-> FALSE, c |-> CType]
+
+RECURSIVE CompactSeq(_, _)
+CompactSeq(vs, i) == IF i > Len(vs) THEN <<>>
+                     ELSE IF i > 1 /\ ValEq(vs[i], vs[i - 1]) THEN CompactSeq(vs, i + 1)
+                     ELSE <<vs[i]>> \o CompactSeq(vs, i + 1)
+
+\* range: the numbers start, start+step, ... before end
+RECURSIVE RangeSeq(_, _, _, _)
+RangeSeq(cur, end, step, n) ==
+  IF n > 64 THEN <<VNil>>                                  \* too long for the model (marker)
+  ELSE IF (step > 0 /\ cur >= end) \/ (step < 0 /\ cur <= end) THEN <<>>
+  ELSE <<VNum(cur)>> \o RangeSeq(cur + step, end, step, n + 1)
+
+\* stable insertion sort of items [v, key] by key; -> [ok, items] | [ok |-> FALSE]
+RECURSIVE InsertSorted(_, _, _)
+InsertSorted(sorted, it, i) ==       \* insert after the last element not greater than it
+  IF i = 0 THEN [ok |-> TRUE, items |-> <<it>> \o sorted]
+  ELSE LET o == Cmp(sorted[i].key, it.key) IN
+       IF o = "unc" THEN [ok |-> FALSE]
+       ELSE IF o = "gt" THEN InsertSorted(sorted, it, i - 1)
+       ELSE [ok |-> TRUE, items |-> SubSeq(sorted, 1, i) \o <<it>> \o SubSeq(sorted, i + 1, Len(sorted))]
+RECURSIVE SortItems(_, _, _)
+SortItems(items, i, acc) ==
+  IF i > Len(items) THEN [ok |-> TRUE, items |-> acc]
+  ELSE LET r == InsertSorted(acc, items[i], Len(acc)) IN
+       IF ~r.ok THEN r ELSE SortItems(items, i + 1, r.items)
+\* every pair comparable (the real sort reports an uncomparable pair whichever pairs it compares
+\* only if all pairs are checked: with an uncomparable pair present the outcome is left open)
+AllComparable(items) == \A i \in 1..Len(items) : \A j \in 1..Len(items) : Cmp(items[i].key, items[j].key) # "unc"
+AnyUncomparableAdjacent(items) == \E i \in 1..(Len(items) - 1) : Cmp(items[i].key, items[i + 1].key) = "unc"
+Reverse(s) == [i \in 1..Len(s) |-> s[Len(s) + 1 - i]]
+
+RECURSIVE EachLoop(_, _, _, _, _, _)
+RECURSIVE KeepLoop(_, _, _, _, _, _)
+RECURSIVE KeyLoop(_, _, _, _, _, _)
+
+\* a callback of each / keep-if / order runs with its caller's ports: it must not read the input
+CallBack(st, env, f, args) ==
+  LET r == CallFn([st EXCEPT !.inok = FALSE], env, f, args, <<>>) IN [r EXCEPT !.st.inok = st.inok]
+
+\* each: `break` ends the iteration, `continue` one call; any other exception ends it and is rethrown
+EachLoop(st, env, f, vs, i, acc) ==
+  IF i > Len(vs) THEN acc
+  ELSE LET r == CallBack(st, env, f, <<vs[i]>>) IN
+       IF r.exc.c = "ok" \/ (r.exc.c = "flow" /\ r.exc.n = "continue")
+       THEN EachLoop(r.st, env, f, vs, i + 1, After(acc, [r EXCEPT !.exc = COk]))
+       ELSE IF r.exc.c = "flow" /\ r.exc.n = "break" THEN After(acc, [r EXCEPT !.exc = COk])
+       ELSE After(acc, r)
+
+\* keep-if: the predicate must output exactly one boolean
+KeepLoop(st, env, f, vs, i, acc) ==
+  IF i > Len(vs) THEN acc
+  ELSE LET r == CallBack(st, env, f, <<vs[i]>>) IN
+       IF Failed(r) THEN After(acc, [r EXCEPT !.out = <<>>])
+       ELSE IF Len(r.out) # 1 THEN After(acc, [r EXCEPT !.out = <<>>, !.exc = CArity])
+       ELSE IF r.out[1].k # "bool" THEN After(acc, [r EXCEPT !.out = <<>>, !.exc = CBadValue])
+       ELSE KeepLoop(r.st, env, f, vs, i + 1,
+                     After(acc, [r EXCEPT !.out = IF r.out[1].b THEN <<vs[i]>> ELSE <<>>]))
+
+\* order &key: the callback must output exactly one value per input; acc.vs collects the keys
+KeyLoop(st, env, f, vs, i, acc) ==
+  IF i > Len(vs) THEN acc
+  ELSE LET r == CallBack(st, env, f, <<vs[i]>>) IN
+       IF Failed(r) THEN [r EXCEPT !.out = <<>>, !.vs = <<>>]
+       ELSE IF Len(r.out) # 1 THEN [r EXCEPT !.out = <<>>, !.vs = <<>>, !.exc = CArity]
+       ELSE KeyLoop(r.st, env, f, vs, i + 1, [r EXCEPT !.vs = acc.vs \o r.out, !.out = <<>>])
+
+OptNamesOK(opts, allowed) == \A i \in 1..Len(opts) : opts[i][1] \in allowed
+OptVal(opts, n, dflt) == LET j == OptFind(opts, n, Len(opts)) IN IF j = 0 THEN dflt ELSE opts[j][2]
+
 CallBuiltin(st, env, name, args, opts) ==
   IF name \in PureNames THEN
     IF opts # <<>> /\ name # "nop" THEN Throw(st, env, CBadOpt)
     ELSE LET p == Pure(name, args) IN Res(st, env, <<>>, p.out, p.exc)
-  ELSE IF name = "count" THEN
-    IF opts # <<>> THEN Throw(st, env, CBadOpt)
-    ELSE IF Len(args) # 1 THEN Throw(st, env, COOM)            \* counting the value input: pipelines
-    ELSE LET c == CountOf(args[1]) IN
-         IF c.ok THEN Outs(st, env, <<VNum(c.v)>>) ELSE Throw(st, env, c.c)
-  ELSE Throw(st, env, COOM)
+  ELSE IF opts # <<>> /\ name \notin {"range", "order"} THEN Throw(st, env, CBadOpt)
+  ELSE CASE name = "count" ->
+              IF Len(args) > 1 THEN Throw(st, env, CArity)
+              ELSE IF Len(args) = 1 THEN
+                     LET c == CountOf(args[1]) IN
+                     IF c.ok THEN Outs(st, env, <<VNum(c.v)>>) ELSE Throw(st, env, c.c)
+              ELSE LET i == Inputs(st, args, 0) IN
+                   IF ~i.ok THEN Throw(st, env, i.c) ELSE Outs(i.st, env, <<VNum(Len(i.vs))>>)
+         [] name = "fail" ->
+              IF Len(args) # 1 THEN Throw(st, env, CArity)
+              ELSE IF args[1].k = "exc" THEN                        \* "If $v is already an exception, fail rethrows it"
+                     (IF args[1].c.c = "ok" THEN Throw(st, env, COOM) ELSE Throw(st, env, args[1].c))
+              ELSE Throw(st, env, CFail(args[1]))
+         [] name \in {"return", "break", "continue"} ->
+              IF Len(args) # 0 THEN Throw(st, env, CArity) ELSE Throw(st, env, CFlow(name))
+         [] name \in {"all", "one", "compact"} ->
+              IF Len(args) > 1 THEN Throw(st, env, CArity)
+              ELSE LET i == Inputs(st, args, 0) IN
+                   IF ~i.ok THEN Throw(st, env, i.c)
+                   ELSE IF name = "all" THEN Outs(i.st, env, i.vs)
+                   ELSE IF name = "compact" THEN Outs(i.st, env, CompactSeq(i.vs, 1))
+                   ELSE IF Len(i.vs) = 1 THEN Outs(i.st, env, i.vs) ELSE Throw(i.st, env, CArity)
+         [] name \in {"take", "drop"} ->
+              IF Len(args) < 1 \/ Len(args) > 2 THEN Throw(st, env, CArity)
+              ELSE LET n == IntArg(args[1]) IN
+                   IF ~n.ok THEN Throw(st, env, n.c)
+                   ELSE LET i == Inputs(st, args, 1) IN
+                        IF ~i.ok THEN Throw(st, env, i.c)
+                        ELSE LET m == IF n.n < 0 THEN 0 ELSE IF n.n > Len(i.vs) THEN Len(i.vs) ELSE n.n IN
+                             IF name = "take" THEN Outs(i.st, env, SubSeq(i.vs, 1, m))
+                             ELSE Outs(i.st, env, SubSeq(i.vs, m + 1, Len(i.vs)))
+         [] name = "range" ->
+              IF ~OptNamesOK(opts, {"step"}) THEN Throw(st, env, CBadOpt)
+              ELSE IF Len(args) < 1 \/ Len(args) > 2 THEN Throw(st, env, CArity)
+              ELSE LET ns == NumArgs(args \o (IF opts = <<>> THEN <<>> ELSE <<OptVal(opts, "step", VNil)>>)) IN
+                   IF AnyUnk(ns) THEN Throw(st, env, COOM)
+                   ELSE IF AnyNotNum(ns) THEN Throw(st, env, CType)
+                   ELSE LET start == IF Len(args) = 1 THEN 0 ELSE ns[1].n
+                            end == IF Len(args) = 1 THEN ns[1].n ELSE ns[2].n
+                            hasStep == opts # <<>>
+                            step == IF hasStep THEN ns[Len(ns)].n ELSE IF start <= end THEN 1 ELSE -1
+                        IN IF (start <= end /\ step <= 0) \/ (start > end /\ step >= 0) THEN Throw(st, env, CBadValue)
+                           ELSE LET vs == RangeSeq(start, end, step, 0) IN
+                                IF vs # <<>> /\ vs[Len(vs)].k = "nil" THEN Throw(st, env, COOM)
+                                ELSE Outs(st, env, vs)
+         [] name = "each" ->
+              IF Len(args) < 1 \/ Len(args) > 2 THEN Throw(st, env, CArity)
+              ELSE IF args[1].k # "fn" THEN Throw(st, env, CType)
+              ELSE LET i == Inputs(st, args, 1) IN
+                   IF ~i.ok THEN Throw(st, env, i.c)
+                   ELSE EachLoop(i.st, env, args[1], i.vs, 1, Done(i.st, env))
+         [] name = "keep-if" ->
+              IF Len(args) < 1 \/ Len(args) > 2 THEN Throw(st, env, CArity)
+              ELSE IF args[1].k # "fn" THEN Throw(st, env, CType)
+              ELSE LET i == Inputs(st, args, 1) IN
+                   IF ~i.ok THEN Throw(st, env, i.c)
+                   ELSE KeepLoop(i.st, env, args[1], i.vs, 1, Done(i.st, env))
+         [] name = "order" ->
+              IF ~OptNamesOK(opts, {"reverse", "key"}) THEN
+                   (IF OptNamesOK(opts, {"reverse", "key", "less-than", "total"}) THEN Throw(st, env, COOM)
+                    ELSE Throw(st, env, CBadOpt))
+              ELSE IF Len(args) > 1 THEN Throw(st, env, CArity)
+              ELSE LET rev == OptVal(opts, "reverse", VBool(FALSE))
+                       key == OptVal(opts, "key", VNil)
+                   IN IF rev.k # "bool" \/ key.k \notin {"nil", "fn"} THEN Throw(st, env, COOM)
+                      ELSE LET i == Inputs(st, args, 0) IN
+                           IF ~i.ok THEN Throw(st, env, i.c)
+                           ELSE LET rk == IF key.k = "nil" THEN Vals(i.st, env, i.vs)
+                                          ELSE KeyLoop(i.st, env, key, i.vs, 1, Vals(i.st, env, <<>>))
+                                IN IF Failed(rk) THEN rk
+                                   ELSE LET items == [q \in 1..Len(i.vs) |-> [v |-> i.vs[q], key |-> rk.vs[q]]]
+                                        IN IF ~AllComparable(items) THEN
+                                             \* an uncomparable pair is an error if the sort meets it
+                                             (IF AnyUncomparableAdjacent(items) \/ Len(items) <= 12 THEN Throw(rk.st, env, CBadValue)
+                                              ELSE Throw(rk.st, env, COOM))
+                                           ELSE LET srt == SortItems(IF rev.b THEN Reverse(items) ELSE items, 1, <<>>)
+                                                    ord == IF rev.b THEN Reverse(srt.items) ELSE srt.items
+                                                IN Outs(rk.st, env, [q \in 1..Len(ord) |-> ord[q].v])
+         [] OTHER -> Throw(st, env, COOM)
+
+\* options of a command: &name=expr, each expression exactly one value
+EvalOpts(st, env, opts, i, acc) ==
+  IF i > Len(opts) THEN Vals(st, env, acc)
+  ELSE LET r == EvalExpr(st, env, opts[i][2]) IN
+       IF Failed(r) THEN [r EXCEPT !.vs = <<>>]
+       ELSE IF Len(r.vs) # 1 THEN [r EXCEPT !.vs = <<>>, !.exc = CArity]     \* "1 keys but n values"
+       ELSE After(r, EvalOpts(r.st, r.env, opts, i + 1, Append(acc, <<opts[i][1], r.vs[1]>>)))
+
+HasSlash(s) == \E i \in 1..Len(s) : s[i] = 47
+
+\* The command head: a literal name is resolved statically ($name~ in scope, else the builtin of
+\* that name, else an external command); any other expression must evaluate to one callable.
+EvalHead(st, env, h) ==
+  IF h.t = "name" THEN
+    IF Bound(env, h.n \o "~") THEN
+      LET v == st.store[env[h.n \o "~"]] IN
+      IF v.k = "fn" THEN Vals(st, env, <<v>>) ELSE Throw(st, env, COOM)
+    ELSE IF h.n \in BuiltinFnNames THEN Vals(st, env, <<VBuiltin(h.n)>>)
+    ELSE Throw(st, env, COOM)                                        \* external command
+  ELSE LET r == EvalExpr(st, env, h) IN
+       IF Failed(r) THEN r
+       ELSE IF Len(r.vs) # 1 THEN [r EXCEPT !.vs = <<>>, !.exc = CArity]
+       ELSE IF r.vs[1].k = "fn" THEN r
+       ELSE IF r.vs[1].k = "str" /\ HasSlash(r.vs[1].s) THEN [r EXCEPT !.vs = <<>>, !.exc = COOM]
+       ELSE [r EXCEPT !.vs = <<>>, !.exc = CBadValue]                \* "command must be callable"
 
 ExecCmd(st, env, f) ==
-  IF f.head.t = "name" THEN
-    \* static resolution: $name~ in scope, else the builtin of that name, else an external command
-    IF Bound(env, f.head.n \o "~") THEN Throw(st, env, COOM)
-    ELSE IF f.head.n \notin BuiltinFnNames THEN Throw(st, env, COOM)
-    ELSE LET ra == EvalExprs(st, env, f.args, 1) IN
-         IF Failed(ra) THEN [ra EXCEPT !.vs = <<>>]
-         ELSE After(ra, CallBuiltin(ra.st, ra.env, f.head.n, ra.vs, f.opts))
-  ELSE Throw(st, env, COOM)
+  LET rh == EvalHead(st, env, f.head) IN
+  IF Failed(rh) THEN [rh EXCEPT !.vs = <<>>]
+  ELSE LET ra == EvalExprs(rh.st, rh.env, f.args, 1) IN
+       IF Failed(ra) THEN After(rh, [ra EXCEPT !.vs = <<>>])
+       ELSE LET ro == EvalOpts(ra.st, ra.env, f.opts, 1, <<>>) IN
+            IF Failed(ro) THEN After(rh, After(ra, [ro EXCEPT !.vs = <<>>]))
+            ELSE After(rh, After(ra, After(ro, CallFn(ro.st, ro.env, rh.vs[1], ra.vs, ro.vs))))
 
-\* ---- forms
+\* ---- special commands
 ExecVar(st, env, f) ==
   \* right-hand side first, in the old scope: "it sees the old variable"
-  LET rr == IF f.eq THEN EvalExprs(st, env, f.rhs, 1) ELSE Vals(st, env, [j \in 1..Len(f.lhs) |-> VNil]) IN
-  IF Failed(rr) THEN [rr EXCEPT !.vs = <<>>]
-  ELSE LET d == IF f.eq THEN Distribute(rr.vs, Len(f.lhs), f.rest) ELSE [ok |-> TRUE, vals |-> rr.vs] IN
-       IF ~d.ok THEN [rr EXCEPT !.vs = <<>>, !.exc = CArity]
-       ELSE LET base == Len(rr.st.store)
-                st2 == [rr.st EXCEPT !.store = @ \o d.vals]
-                env2 == [x \in (DOMAIN rr.env) \cup {f.lhs[j].n : j \in 1..Len(f.lhs)} |->
-                           IF \E j \in 1..Len(f.lhs) : f.lhs[j].n = x
-                           THEN base + (CHOOSE j \in 1..Len(f.lhs) : f.lhs[j].n = x /\ \A q \in (j+1)..Len(f.lhs) : f.lhs[q].n # x)
-                           ELSE rr.env[x]]
-            IN [rr EXCEPT !.st = st2, !.env = env2, !.vs = <<>>]
+  IF ~f.eq THEN LET d == Declare(st, env, [j \in 1..Len(f.lhs) |-> f.lhs[j].n], [j \in 1..Len(f.lhs) |-> VNil], 1)
+                IN Done(d.st, d.env)
+  ELSE LET rr == EvalExprs(st, env, f.rhs, 1) IN
+       IF Failed(rr) THEN [rr EXCEPT !.vs = <<>>]
+       ELSE LET d == Distribute(rr.vs, Len(f.lhs), f.rest) IN
+            IF ~d.ok THEN [rr EXCEPT !.vs = <<>>, !.exc = CArity]
+            ELSE LET n == Declare(rr.st, rr.env, [j \in 1..Len(f.lhs) |-> f.lhs[j].n], d.vals, 1)
+                 IN [rr EXCEPT !.st = n.st, !.env = n.env, !.vs = <<>>]
 
 ExecSet(st, env, f) ==
   LET rl == ResolveLVs(st, env, f.lhs, 1, <<>>) IN
@@ -268,16 +524,163 @@ ExecSet(st, env, f) ==
             ELSE LET s == StoreAll(rr.st, rl.vs, d.vals, 1) IN
                  After(rl, [rr EXCEPT !.vs = <<>>, !.st = s.st, !.exc = IF s.ok THEN COk ELSE s.c])
 
+\* "fn": the variable name~ is declared first (so the body may refer to the function itself),
+\* then the lambda is evaluated and modified to capture `return`.
+ExecFn(st, env, f) ==
+  LET st1 == Alloc(st, VBuiltin("nop"))
+      loc == NewLoc(st)
+      env1 == Bind(env, f.name \o "~", loc)
+      r == EvalExpr(st1, env1, f.lam)
+  IN IF Failed(r) THEN [r EXCEPT !.vs = <<>>]
+     ELSE [r EXCEPT !.vs = <<>>, !.st = SetLoc(r.st, loc, [r.vs[1] EXCEPT !.wrap = TRUE])]
+
+AllTruthy(vs) == \A i \in 1..Len(vs) : Truthy(vs[i])
+
+\* "if": conditions one by one; several values are and'ed, no value is true
+ExecIf(st, env, f, i) ==
+  IF i > Len(f.arms) THEN
+    IF f.els = <<>> THEN Done(st, env) ELSE ExecBlock(st, env, f.els[1])
+  ELSE LET rc == EvalExpr(st, env, f.arms[i][1]) IN
+       IF Failed(rc) THEN [rc EXCEPT !.vs = <<>>]
+       ELSE IF AllTruthy(rc.vs) THEN After(rc, ExecBlock(rc.st, rc.env, f.arms[i][2]))
+       ELSE After([rc EXCEPT !.vs = <<>>], ExecIf(rc.st, rc.env, f, i + 1))
+
+\* "while": `continue` ends an iteration, `break` the loop; the else body runs if the body never ran
+ExecWhile(st, env, f, iterated, fuel) ==
+  IF fuel = 0 THEN Throw(st, env, COOM)
+  ELSE LET rc == EvalExpr(st, env, f.cond) IN
+       IF Failed(rc) THEN [rc EXCEPT !.vs = <<>>]
+       ELSE IF ~AllTruthy(rc.vs) THEN
+              IF ~iterated /\ f.els # <<>> THEN After([rc EXCEPT !.vs = <<>>], ExecBlock(rc.st, rc.env, f.els[1]))
+              ELSE [rc EXCEPT !.vs = <<>>]
+       ELSE LET rb == ExecBlock(rc.st, rc.env, f.body) IN
+            IF rb.exc.c = "ok" \/ (rb.exc.c = "flow" /\ rb.exc.n = "continue")
+            THEN After([rc EXCEPT !.vs = <<>>], After([rb EXCEPT !.exc = COk], ExecWhile(rb.st, rb.env, f, TRUE, fuel - 1)))
+            ELSE IF rb.exc.c = "flow" /\ rb.exc.n = "break"
+            THEN After([rc EXCEPT !.vs = <<>>], [rb EXCEPT !.exc = COk])
+            ELSE After([rc EXCEPT !.vs = <<>>], rb)
+
+\* "for": the elements of the container are assigned to the variable one by one
+ExecForLoop(st, env, f, loc, elems, i, acc) ==
+  IF i > Len(elems) THEN acc
+  ELSE LET rb == ExecBlock(SetLoc(st, loc, elems[i]), env, f.body) IN
+       IF rb.exc.c = "ok" \/ (rb.exc.c = "flow" /\ rb.exc.n = "continue")
+       THEN ExecForLoop(rb.st, env, f, loc, elems, i + 1, After(acc, [rb EXCEPT !.exc = COk]))
+       ELSE IF rb.exc.c = "flow" /\ rb.exc.n = "break" THEN After(acc, [rb EXCEPT !.exc = COk])
+       ELSE After(acc, rb)
+
+ExecFor(st, env, f) ==
+  IF f.v.idx # <<>> THEN Throw(st, env, COOM)
+  ELSE LET sv == ScopeVar(st, env, f.v.n)
+           ri == EvalExpr(sv.st, sv.env, f.iter)
+       IN IF Failed(ri) THEN [ri EXCEPT !.vs = <<>>]
+          ELSE IF Len(ri.vs) # 1 THEN [ri EXCEPT !.vs = <<>>, !.exc = CArity]
+          ELSE IF ~Iterable(ri.vs[1]) THEN [ri EXCEPT !.vs = <<>>, !.exc = CType]
+          ELSE IF ri.vs[1].k = "str" /\ ~Ascii(ri.vs[1].s) THEN [ri EXCEPT !.vs = <<>>, !.exc = COOM]
+          ELSE LET elems == Elements(ri.vs[1])
+                   r0 == [ri EXCEPT !.vs = <<>>]
+               IN IF elems = <<>> THEN
+                    (IF f.els # <<>> THEN After(r0, ExecBlock(ri.st, ri.env, f.els[1])) ELSE r0)
+                  ELSE ExecForLoop(ri.st, ri.env, f, sv.loc, elems, 1, r0)
+
+\* "try"
+ExecTry(st, env, f) ==
+  LET sv == IF f.cvar # <<>> THEN ScopeVar(st, env, f.cvar[1]) ELSE [st |-> st, env |-> env, loc |-> 0]
+      rb == ExecBlock(sv.st, sv.env, f.body)
+      \* after the body: catch (exception caught, stored in the variable) or else
+      r1 == IF Skip(rb.exc) THEN rb
+            ELSE IF Failed(rb) THEN
+                   IF f.catch = <<>> THEN rb
+                   ELSE LET stc == IF f.cvar # <<>> THEN SetLoc(rb.st, sv.loc, VExc(rb.exc)) ELSE rb.st
+                        IN After([rb EXCEPT !.exc = COk], ExecBlock(stc, sv.env, f.catch[1]))
+            ELSE IF f.els # <<>> THEN After(rb, ExecBlock(rb.st, sv.env, f.els[1]))
+            ELSE rb
+  IN IF Skip(r1.exc) \/ f.fin = <<>> THEN r1
+     ELSE LET rf == ExecBlock(r1.st, sv.env, f.fin[1]) IN
+          \* an exception of the finally block replaces the pending one
+          IF Failed(rf) THEN After([r1 EXCEPT !.exc = COk], rf)
+          ELSE After([r1 EXCEPT !.exc = COk], [rf EXCEPT !.exc = r1.exc])
+
+\* "and", "or", "coalesce": short-circuit over the values of the arguments
+\* kind "and": stop at the first booleanly false value; "or": first true; "coalesce": first non-nil
+LogicStop(kind, v) == CASE kind = "and" -> ~Truthy(v) [] kind = "or" -> Truthy(v) [] OTHER -> v.k # "nil"
+RECURSIVE FirstStop(_, _, _)
+FirstStop(kind, vs, i) == IF i > Len(vs) THEN 0 ELSE IF LogicStop(kind, vs[i]) THEN i ELSE FirstStop(kind, vs, i + 1)
+\* last: the value output if no argument value stops the evaluation
+EvalLogic(st, env, kind, args, i, last) ==
+  IF i > Len(args) THEN Outs(st, env, <<last>>)
+  ELSE LET r == EvalExpr(st, env, args[i]) IN
+       IF Failed(r) THEN [r EXCEPT !.vs = <<>>]
+       ELSE LET j == FirstStop(kind, r.vs, 1) IN
+            IF j # 0 THEN [r EXCEPT !.vs = <<>>, !.out = @ \o <<r.vs[j]>>]
+            ELSE After([r EXCEPT !.vs = <<>>],
+                       EvalLogic(r.st, r.env, kind, args, i + 1,
+                                 IF kind = "coalesce" \/ r.vs = <<>> THEN last ELSE r.vs[Len(r.vs)]))
+
 ExecForm(st, env, f) ==
-  CASE f.t = "cmd" -> ExecCmd(st, env, f)
-    [] f.t = "var" -> ExecVar(st, env, f)
-    [] f.t = "set" -> ExecSet(st, env, f)
+  CASE f.t = "cmd"   -> ExecCmd(st, env, f)
+    [] f.t = "var"   -> ExecVar(st, env, f)
+    [] f.t = "set"   -> ExecSet(st, env, f)
+    [] f.t = "fn"    -> ExecFn(st, env, f)
+    [] f.t = "if"    -> ExecIf(st, env, f, 1)
+    [] f.t = "while" -> ExecWhile(st, env, f, FALSE, MaxIter)
+    [] f.t = "for"   -> ExecFor(st, env, f)
+    [] f.t = "try"   -> ExecTry(st, env, f)
+    [] f.t = "and"   -> EvalLogic(st, env, "and", f.args, 1, VBool(TRUE))
+    [] f.t = "or"    -> EvalLogic(st, env, "or", f.args, 1, VBool(FALSE))
+    [] f.t = "coalesce" -> EvalLogic(st, env, "coalesce", f.args, 1, VNil)
     [] OTHER -> Throw(st, env, COOM)
 
-\* ---- pipelines and chunks
+\* ---- pipelines and chunks ("Pipeline", "Pipeline exception")
+\* Stream semantics of a pipeline of value-stream commands: the value input of form k+1 is the
+\* value output of form k; the first form reads the input of the enclosing command; the
+\* pipeline's output is that of the last form.  The forms run concurrently in Elvish; this big-step
+\* definition (forms in order) gives the outcome whenever it does not depend on the schedule:
+\*   (a) no form but the last changes a variable that existed before the pipeline, and
+\*   (b) a form k whose successor ends without having read the input either throws nothing and
+\*       changes nothing (its writes after the reader has gone raise the suppressed "reader gone"
+\*       exception at an unspecified point) or outputs nothing.
+\* Otherwise the outcome is Unspecified (cause "unspec": skipped and counted).
+\* The exception of the pipeline: none / the only one / a composite of all ("Pipeline exception").
+KeepsOld(before, after) == SubSeq(after.store, 1, Len(before.store)) = before.store
+
+RECURSIVE ExecStages(_, _, _, _, _, _, _)
+\* input: value input of stage i; excs: causes of stages 1..i-1; prev: [puts, pure] of stage i-1
+ExecStages(st, env, fs, i, input, excs, first) ==
+  LET r == ExecForm([st EXCEPT !.inp = input, !.rd = FALSE], env, fs[i])
+      last == i = Len(fs)
+      pure == KeepsOld(st, r.st)
+      \* the enclosing input is consumed by the first stage only
+      firstAfter == IF i = 1 THEN [inp |-> r.st.inp, rd |-> st.rd \/ r.st.rd] ELSE first
+  IN IF Skip(r.exc) THEN r
+     ELSE IF ~last /\ ~pure THEN Throw(r.st, env, CUnspec)                                  \* (a)
+     ELSE IF last THEN
+            LET all == Append(excs, r.exc)
+                bad == {q \in 1..Len(all) : all[q].c # "ok"}
+                exc == IF bad = {} THEN COk
+                       ELSE IF Cardinality(bad) = 1 THEN all[CHOOSE q \in bad : TRUE]
+                       ELSE CPipeline(all)
+            IN [r EXCEPT !.exc = exc, !.st.inp = firstAfter.inp, !.st.rd = firstAfter.rd]
+     ELSE LET nx == ExecStages(r.st, r.env, fs, i + 1, r.out, Append(excs, r.exc), firstAfter) IN
+          nx
+
+\* (b) is checked after the fact on the recorded per-stage facts; to keep one pass, each stage
+\* result is examined by its successor through `rdflags`: see ExecPipe.
+RECURSIVE StageFacts(_, _, _, _, _)
+\* facts[k] == [puts, quiet, read]: number of values stage k wrote, stage k threw nothing, stage k read its input
+StageFacts(st, env, fs, i, input) ==
+  LET r == ExecForm([st EXCEPT !.inp = input, !.rd = FALSE], env, fs[i]) IN
+  IF Skip(r.exc) \/ i = Len(fs) THEN <<[puts |-> Len(r.out), quiet |-> r.exc.c = "ok", read |-> r.st.rd]>>
+  ELSE <<[puts |-> Len(r.out), quiet |-> r.exc.c = "ok", read |-> r.st.rd]>> \o StageFacts(r.st, r.env, fs, i + 1, r.out)
+
+ScheduleFree(facts) == \A q \in 1..(Len(facts) - 1) : facts[q + 1].read \/ facts[q].puts = 0 \/ facts[q].quiet
+
 ExecPipe(st, env, p) ==
   IF Len(p.fs) = 1 THEN ExecForm(st, env, p.fs[1])
-  ELSE Throw(st, env, COOM)
+  ELSE LET r == ExecStages(st, env, p.fs, 1, st.inp, <<>>, [inp |-> st.inp, rd |-> st.rd]) IN
+       IF Skip(r.exc) THEN r
+       ELSE IF ~ScheduleFree(StageFacts(st, env, p.fs, 1, st.inp)) THEN Throw(r.st, env, CUnspec)   \* (b)
+       ELSE r
 
 ExecChunk(st, env, ps, i) ==
   IF i > Len(ps) THEN Done(st, env)
@@ -285,44 +688,38 @@ ExecChunk(st, env, ps, i) ==
        IF Failed(r) THEN r ELSE After(r, ExecChunk(r.st, r.env, ps, i + 1))
 
 \* ---------------------------------------------------------------- the state machine
-\* Names declared by a statement at the top level of a chunk (not inside lambdas).
-DeclNames(p) ==
-  IF Len(p.fs) # 1 THEN <<>>
-  ELSE LET f == p.fs[1] IN
-       CASE f.t = "var" -> [j \in 1..Len(f.lhs) |-> f.lhs[j].n]
-         [] OTHER -> <<>>
-
-\* the failing statement had already bound the names it declares (the exception came later)
-DeclDone(p, envBefore, envAfter) ==
-  LET ns == DeclNames(p) IN
-  ns # <<>> /\ \A j \in 1..Len(ns) : Bound(envAfter, ns[j]) /\ (Bound(envBefore, ns[j]) => envAfter[ns[j]] # envBefore[ns[j]])
-
+\* DeclareRest: the names declared at the top level of the pipelines i.. of a chunk (not inside
+\* lambdas) become fresh variables holding their initial value, as the compiler does before the
+\* chunk runs.  A `for` / `catch` variable is new only if no variable of that name is in scope.
 RECURSIVE DeclareRest(_, _, _, _)
-\* names declared by pipelines i.. are bound to fresh $nil variables
 DeclareRest(st, env, ps, i) ==
   IF i > Len(ps) THEN [st |-> st, env |-> env]
-  ELSE LET ns == DeclNames(ps[i])
-           base == Len(st.store)
-           st2 == [st EXCEPT !.store = @ \o [j \in 1..Len(ns) |-> VNil]]
-           env2 == [x \in (DOMAIN env) \cup {ns[j] : j \in 1..Len(ns)} |->
-                      IF \E j \in 1..Len(ns) : ns[j] = x
-                      THEN base + (CHOOSE j \in 1..Len(ns) : ns[j] = x /\ \A q \in (j+1)..Len(ns) : ns[q] # x)
-                      ELSE env[x]]
-       IN DeclareRest(st2, env2, ps, i + 1)
+  ELSE IF Len(ps[i].fs) # 1 THEN DeclareRest(st, env, ps, i + 1)
+  ELSE LET f == ps[i].fs[1]
+           d == CASE f.t = "var" -> Declare(st, env, [j \in 1..Len(f.lhs) |-> f.lhs[j].n],
+                                            [j \in 1..Len(f.lhs) |-> VNil], 1)
+                  [] f.t = "fn"  -> Declare(st, env, <<f.name \o "~">>, <<VBuiltin("nop")>>, 1)
+                  [] f.t = "for" -> LET sv == ScopeVar(st, env, f.v.n) IN [st |-> sv.st, env |-> sv.env]
+                  [] f.t = "try" -> IF f.cvar = <<>> THEN [st |-> st, env |-> env]
+                                    ELSE LET sv == ScopeVar(st, env, f.cvar[1]) IN [st |-> sv.st, env |-> sv.env]
+                  [] OTHER -> [st |-> st, env |-> env]
+       IN DeclareRest(d.st, d.env, ps, i + 1)
 
 RECURSIVE ExecTop(_, _, _, _)
-\* the pipelines of a top-level chunk; when pipeline i throws, DeclareRest
+\* The pipelines of a top-level chunk.  When pipeline i throws: `var` binds its names last, so a
+\* failing `var` has declared nothing yet; fn / for / try bind theirs first.
 ExecTop(st, env, ps, i) ==
   IF i > Len(ps) THEN Done(st, env)
   ELSE LET r == ExecPipe(st, env, ps[i]) IN
        IF ~Failed(r) THEN After(r, ExecTop(r.st, r.env, ps, i + 1))
-       ELSE IF r.exc.c = "oom" THEN r
-       ELSE LET d == DeclareRest(r.st, r.env, ps, IF DeclDone(ps[i], env, r.env) THEN i + 1 ELSE i)
+       ELSE IF Skip(r.exc) THEN r
+       ELSE LET isVar == Len(ps[i].fs) = 1 /\ ps[i].fs[1].t = "var"
+                d == DeclareRest(r.st, r.env, ps, IF isVar THEN i ELSE i + 1)
             IN [r EXCEPT !.st = d.st, !.env = d.env]
 
 \* EvalChunk: one Evaler.Eval.  -> [st, out, exc]
 EvalChunk(st, chunk) ==
   LET r == ExecTop(st, st.genv, chunk.ps, 1) IN
-  IF r.exc.c = "oom" THEN [st |-> st, out |-> <<>>, exc |-> COOM]
-  ELSE [st |-> [r.st EXCEPT !.genv = r.env], out |-> r.out, exc |-> r.exc]
+  IF Skip(r.exc) THEN [st |-> st, out |-> <<>>, exc |-> COOM]
+  ELSE [st |-> [r.st EXCEPT !.genv = r.env, !.depth = 0], out |-> r.out, exc |-> r.exc]
 =============================================================================
